@@ -34,7 +34,7 @@ package das
 //@ pure func csSame(a coordinatorState, b coordinatorState) bool = a.samplingRange == b.samplingRange && a.inProgress == b.inProgress && a.failed == b.failed && a.inRetry == b.inRetry && a.networkHead == b.networkHead
 
 //@ func (*coordinatorState).newJob
-//@   property C04
+//@   property C04 C13
 //@   modifies s
 //@   ensures result.jobType == jobType && result.from == from && result.to == to && result.id == s.nextJobID
 //@   ensures csSame(deref(s), old(deref(s))) && s.next == old(s.next)
@@ -42,7 +42,7 @@ package das
 
 // recentJob: the cursor moves past the head only when it was exactly at it.
 //@ func (*coordinatorState).recentJob
-//@   property C04
+//@   property C04 C13
 //@   modifies s
 //@   assume header.Height() < 18446744073709551615
 //@   ensures result.jobType == recentJob && result.from == header.Height() && result.to == header.Height() && result.header == header
@@ -53,7 +53,7 @@ package das
 
 // catchupJob: consecutive catch-up jobs tile the heights without a gap and never pass the head.
 //@ func (*coordinatorState).catchupJob
-//@   property C04
+//@   property C04 C13
 //@   modifies s
 //@   requires s.samplingRange > 0
 //@   assume s.next + s.samplingRange < 18446744073709551616
@@ -64,13 +64,14 @@ package das
 //@   effect $PendingJob := $PendingJob || found
 
 //@ func (*coordinatorState).putInProgress
-//@   property C04
+//@   property C04 C13
 //@   modifies s.inProgress
 //@   ensures has(s.inProgress, jobID)
+//@   ensures len(s.inProgress) <= old(len(s.inProgress)) + 1
 
 // retryJob: a failed height that may be retried moves to inRetry (never dropped).
 //@ func (*coordinatorState).retryJob
-//@   property C04
+//@   property C04 C13
 //@   modifies s
 //@   modifies s.failed
 //@   modifies s.inRetry
@@ -80,7 +81,7 @@ package das
 //@   effect $PendingJob := $PendingJob || found
 
 //@ func (*coordinatorState).nextJob
-//@   property C04
+//@   property C04 C13
 //@   modifies s
 //@   modifies s.failed
 //@   modifies s.inRetry
@@ -89,19 +90,93 @@ package das
 //@   effect $PendingJob := $PendingJob || found
 
 //@ func (*samplingCoordinator).runWorker
-//@   property C04
+//@   property C04 C13
 //@   modifies sc
 //@   modifies sc.state.inProgress
 //@   requires $PendingJob
 //@   ensures has(sc.state.inProgress, j.id)
+//@   ensures len(sc.state.inProgress) <= old(len(sc.state.inProgress)) + 1
 //@   ensures csSame(sc.state, old(sc.state)) && sc.state.next == old(sc.state.next) && sc.concurrencyLimit == old(sc.concurrencyLimit)
 //@   effect $PendingJob := false
 
 //@ func (*samplingCoordinator).run
-//@   property C04
+//@   property C04 C13
 //@   noframe
 //@   requires !$PendingJob
 //@   requires sc.state.samplingRange > 0
+//@   requires sc.concurrencyLimit >= 1 && len(sc.state.inProgress) == 0 && len(cp.Workers) <= sc.concurrencyLimit
 //@   loop 1: invariant !$PendingJob && sc.state.samplingRange > 0
+//@   loop 1: invariant -1 <= rangeindex && rangeindex < len(cp.Workers) && len(sc.state.inProgress) <= rangeindex + 1 && sc.concurrencyLimit >= 1 && len(cp.Workers) <= sc.concurrencyLimit
 //@   loop 2: invariant !$PendingJob && sc.state.samplingRange > 0
+//@   loop 2: invariant sc.concurrencyLimit >= 1 && len(sc.state.inProgress) <= 2 * sc.concurrencyLimit
 //@   loop 3: invariant !$PendingJob && sc.state.samplingRange > 0
+//@   loop 3: invariant sc.concurrencyLimit >= 1 && len(sc.state.inProgress) <= 2 * sc.concurrencyLimit
+
+// ---------------------------------------------------------------------------------------------
+// C13: bounds and bookkeeping of the coordinator.
+
+//@ extern (*sync/atomic.Bool).Load
+//@   ensures result <==> deref(x).v != 0
+//@ extern (*sync/atomic.Bool).Store
+//@   modifies x
+//@   ensures deref(x).v == (val ? 1 : 0)
+//@ extern (*sync/atomic.Bool).CompareAndSwap
+//@   params x o n
+//@   modifies x
+//@   ensures swapped <==> ((old(deref(x).v) != 0) == o)
+//@   ensures swapped ==> deref(x).v == (n ? 1 : 0)
+//@   ensures !swapped ==> deref(x).v == old(deref(x).v)
+
+// Catch-up is reported done exactly when nothing is in flight, nothing is failed and the cursor is
+// past the network head.
+//@ func (*coordinatorState).checkDone
+//@   property C13
+//@   modifies s
+//@   ensures (s.catchUpDone.v != 0) <==> (len(s.inProgress) == 0 && len(s.failed) == 0 && s.next > s.networkHead)
+//@   ensures csSame(deref(s), old(deref(s))) && s.next == old(s.next)
+
+//@ func (*samplingCoordinator).concurrencyLimitReached
+//@   property C13
+//@   ensures result <==> len(sc.state.inProgress) >= sc.concurrencyLimit
+
+//@ func (*samplingCoordinator).recentJobsLimitReached
+//@   property C13
+//@   ensures result <==> len(sc.state.inProgress) >= 2 * sc.concurrencyLimit
+
+// The attempt count of a retried height never decreases: every retry adds one.
+//@ func (retryStrategy).nextRetry
+//@   property C13
+//@   ensures retry.count == lastRetry.count + 1
+
+// A result frees the worker's slot and never creates one.
+//@ func (*coordinatorState).handleRecentOrCatchupResult
+//@   property C13
+//@   trusted
+//@   modifies s.failed
+//@ func (*coordinatorState).handleRetryResult
+//@   property C13
+//@   trusted
+//@   modifies s.failed
+//@   modifies s.inRetry
+//@ func (*coordinatorState).handleResult
+//@   property C13
+//@   modifies s
+//@   modifies s.inProgress
+//@   modifies s.failed
+//@   modifies s.inRetry
+//@   ensures len(s.inProgress) <= old(len(s.inProgress))
+//@   ensures csSame(deref(s), old(deref(s))) && s.next == old(s.next)
+
+//@ func (*coordinatorState).updateHead
+//@   property C13
+//@   modifies s
+//@   ensures s.networkHead == newHead && s.next == old(s.next) && s.samplingRange == old(s.samplingRange)
+//@   ensures s.inProgress == old(s.inProgress) && s.failed == old(s.failed) && s.inRetry == old(s.inRetry)
+
+// Every sampling job ends by reporting its outcome unless the DASer itself is stopping.
+//@ func (*worker).run
+//@   property C13
+//@   noframe
+//@   requires !$Sent
+//@   ensures $Sent || ctxDone(ctx)
+//@   loop 1: invariant !$Sent
